@@ -130,6 +130,7 @@ func cmdCheck(args []string) int {
 	var lines []string
 	if *noEvidence {
 		known := loadKnown(verifDir())
+		knownPrinted := map[string]bool{}
 		for _, f := range c.Findings {
 			isKnown := false
 			for _, k := range known {
@@ -138,7 +139,10 @@ func cmdCheck(args []string) int {
 				}
 			}
 			if isKnown {
-				lines = append(lines, fmt.Sprintf("KNOWN-FINDING: property=%s %s (%s at %s)", id, k0(known, id, f.Key), f.Key, f.Pos))
+				if !knownPrinted[f.Key] {
+					knownPrinted[f.Key] = true
+					lines = append(lines, fmt.Sprintf("KNOWN-FINDING: property=%s %s (%s at %s)", id, k0(known, id, f.Key), f.Key, f.Pos))
+				}
 				continue
 			}
 			n++
